@@ -36,8 +36,10 @@ LEAN_PROPS = ["AasVerif.Props.C12"]
 
 
 class Mut:
-    def __init__(self, doc: Any, kind: str, label: str, shape: str) -> None:
+    def __init__(self, doc: Any, kind: str, label: str, shape: str, sdk_decides: bool = False) -> None:
         self.doc, self.kind, self.label, self.shape = doc, kind, label, shape
+        #: the rejection is demanded only where the generated SDK's ``from_jsonable`` refuses the document as well
+        self.sdk_decides = sdk_decides
 
 
 # --------------------------------------------------------------------------- walking a document along the symbol table
@@ -47,9 +49,10 @@ class Site:
     """One value of the document together with what the meta-model says about it."""
 
     def __init__(self, path: Tuple[Any, ...], value: Any, ta: Any, cons: Any, shape: str, optional: bool, cls: Any,
-                 prop_name: str = "", depth: int = 0) -> None:
+                 prop_name: str = "", depth: int = 0, owner: Any = None) -> None:
         self.path, self.value, self.ta, self.cons, self.shape, self.optional, self.cls = path, value, ta, cons, shape, optional, cls
         self.prop_name, self.depth = prop_name, depth
+        self.owner = owner if owner is not None else cls   # the class which declares the property
 
 
 def _runtime_class(b: c11.Bundle, declared: Any, doc: Any) -> Any:
@@ -89,7 +92,7 @@ def _value_sites(b: c11.Bundle, cls: Any, prop: Any, v: Any, ta: Any, cbv: Any, 
         shape = ("inherited" if inherited else "own") + ("-items" if depth > 0 else "")
     if isinstance(ta, intermediate.OurTypeAnnotation) and isinstance(ta.our_type, intermediate.ConstrainedPrimitive):
         shape += "-constrained"
-    yield Site(path, v, ta, cons, shape, optional and depth == 0, cls, str(prop.name), depth)
+    yield Site(path, v, ta, cons, shape, optional and depth == 0, cls, str(prop.name), depth, prop.specified_for)
     if isinstance(ta, intermediate.ListTypeAnnotation) and isinstance(v, list):
         for i, x in enumerate(v):
             yield from _value_sites(b, cls, prop, x, ta.items, cbv, path + (i,), depth + 1, False)
@@ -226,8 +229,15 @@ def _string_candidates(v: str, cons: Any, rng: random.Random) -> List[str]:
     return cands
 
 
-def constraint_mutants(site: Site, rng: random.Random, cons: Any = None) -> Iterator[Tuple[Any, str, str]]:
-    """(new value, kind, label) — each breaking one constraint of the site (the inferred ones, or ``cons``)."""
+def bound_tag(bound: Any) -> str:
+    """Boundary class of a bound, part of the mutant's shape: the bounds 0 and 1 are representatives of their own."""
+    return f"@{bound}" if bound in (0, 1) else ""
+
+
+def constraint_mutants(site: Site, rng: random.Random, cons: Any = None, item: Any = None) -> Iterator[Tuple[Any, str, str]]:
+    """(new value, kind, label) — each breaking one constraint of the site (the inferred ones, or ``cons``).
+    ``kind`` carries the boundary class of the bound after ``@`` (split off by ``mutants``).  ``item()`` supplies a
+    valid item when an EMPTY list has to grow beyond an upper bound (``maxItems`` of 0)."""
     from aas_core_codegen import intermediate
 
     cons, v = (site.cons if cons is None else cons), site.value
@@ -255,24 +265,106 @@ def constraint_mutants(site: Site, rng: random.Random, cons: Any = None) -> Iter
             if pick is None:
                 continue
             what = verdicts[pick]
-            kind = "pattern" if t.startswith("pattern") else t
             bound = lc.min_value if t == "minLength" else lc.max_value if t == "maxLength" else cons.patterns[int(t[7:])].pattern
+            kind = "pattern" if t.startswith("pattern") else t + bound_tag(bound)
             yield pick, kind, f"{t} ({bound!r}) of {'/'.join(map(str, site.path))} with {pick!r}" + ("" if what == [t] else f" (also breaks {what})")
     elif kindp == "BYTEARRAY" and isinstance(v, str) and lc is not None:
         # exclusion 2: only lengths whose base64 text leaves the window of the bound
         if lc.min_value is not None and b64len(lc.min_value) >= 4 and lc.min_value < 4000:
             n = 3 * (b64len(lc.min_value) // 4 - 1)
-            yield base64.b64encode(bytes(range(n))).decode("ascii"), "bytes-min", \
+            yield base64.b64encode(bytes(range(n))).decode("ascii"), "bytes-min" + bound_tag(lc.min_value), \
                 f"len >= {lc.min_value} of {'/'.join(map(str, site.path))} with {n} bytes"
         if lc.max_value is not None and lc.max_value < 4000:
             n = 3 * (b64len(lc.max_value) // 4) + 1
-            yield base64.b64encode(bytes(k % 251 for k in range(n))).decode("ascii"), "bytes-max", \
+            yield base64.b64encode(bytes(k % 251 for k in range(n))).decode("ascii"), "bytes-max" + bound_tag(lc.max_value), \
                 f"len <= {lc.max_value} of {'/'.join(map(str, site.path))} with {n} bytes"
     elif is_list and isinstance(v, list) and lc is not None:
         if lc.min_value is not None and lc.min_value >= 1 and len(v) >= lc.min_value:
-            yield v[: lc.min_value - 1], "minItems", f"len >= {lc.min_value} of {'/'.join(map(str, site.path))}"
-        if lc.max_value is not None and len(v) >= 1 and lc.max_value < 200:
-            yield v + [v[-1]] * (lc.max_value + 1 - len(v)), "maxItems", f"len <= {lc.max_value} of {'/'.join(map(str, site.path))}"
+            yield v[: lc.min_value - 1], "minItems" + bound_tag(lc.min_value), f"len >= {lc.min_value} of {'/'.join(map(str, site.path))}"
+        if lc.max_value is not None and lc.max_value < 200:
+            filler: Any = v[-1] if len(v) >= 1 else _NO_ITEM
+            if filler is _NO_ITEM and item is not None:
+                # an empty list under an upper bound (of 0, or the instance simply is empty): a valid item is synthesised
+                filler = item()
+            if filler is not _NO_ITEM:
+                yield v + [copy.deepcopy(filler) for _ in range(lc.max_value + 1 - len(v))], "maxItems" + bound_tag(lc.max_value), \
+                    f"len <= {lc.max_value} of {'/'.join(map(str, site.path))}"
+
+
+_NO_ITEM: Any = object()
+
+
+def value_pool(b: c11.Bundle, docs: List[Tuple[Any, Any]]) -> Dict[str, List[Any]]:
+    """``str(type annotation)`` -> values seen at such a site in the given (class, document) pairs."""
+    pool: Dict[str, List[Any]] = {}
+    for cls, doc in docs:
+        for site in sites(b, cls, doc):
+            vals = pool.setdefault(str(site.ta), [])
+            if len(vals) < 8 and site.value not in vals:
+                vals.append(site.value)
+    return pool
+
+
+def synth_item(b: c11.Bundle, site: Site, pool: Dict[str, List[Any]], rng: random.Random) -> Any:
+    """A value which is a VALID item of the list at ``site`` (``_NO_ITEM``: none found): from the pool of values of the same
+    type seen in the documents of this model, else synthesised from the type (primitives, constrained primitives,
+    enumerations).  The constraints on the item are evaluated by the oracle itself (``broken``)."""
+    from aas_core_codegen import intermediate
+
+    ita = site.ta.items
+    if site.owner is not site.cls:
+        icons = b.cbc[site.owner].get(ita, None)      # exclusion 1
+    else:
+        icons = b.cbc[site.cls].get(ita, None)
+    kindp = _prim_kind(ita)
+
+    def fits(x: Any) -> bool:
+        if kindp == "STR":
+            return isinstance(x, str) and broken(kindp, False, icons, x) == []
+        if kindp == "BYTEARRAY":
+            if not isinstance(x, str):
+                return False
+            lc = icons.len_constraint if icons is not None else None
+            try:
+                n = len(base64.b64decode(x))
+            except Exception:  # noqa: B902
+                return False
+            return lc is None or ((lc.min_value is None or n >= lc.min_value) and (lc.max_value is None or n <= lc.max_value))
+        if isinstance(ita, intermediate.ListTypeAnnotation):
+            return isinstance(x, list) and broken(None, True, icons, x) == []
+        return True
+
+    for x in pool.get(str(ita), []):
+        if fits(x):
+            return x
+    if kindp == "BOOL":
+        return True
+    if kindp == "INT":
+        return 1
+    if kindp == "FLOAT":
+        return 1.5
+    if kindp == "STR":
+        cands = ["a", "", "ab", "abc", "A", "AB", "ABC", "1", "12", "abcd", "ABCD"]
+        if icons is not None:
+            cands += [c for c in _string_candidates("a", _ConsView(icons), rng) if len(c) <= MAX_CANDIDATE]
+        return next((c for c in cands if fits(c)), _NO_ITEM)
+    if kindp == "BYTEARRAY":
+        lc = icons.len_constraint if icons is not None else None
+        n = (lc.min_value or 0) if lc is not None else 0
+        x = base64.b64encode(bytes(range(n % 200))).decode("ascii") if n < 200 else None
+        return x if x is not None and fits(x) else _NO_ITEM
+    if isinstance(ita, intermediate.OurTypeAnnotation) and isinstance(ita.our_type, intermediate.Enumeration) and ita.our_type.literals:
+        return ita.our_type.literals[0].value
+    if isinstance(ita, intermediate.ListTypeAnnotation) and fits([]):
+        return []
+    return _NO_ITEM
+
+
+class _ConsView:
+    """The shape ``_string_candidates`` reads (never None for the length constraint's holder)."""
+
+    def __init__(self, cons: Any) -> None:
+        self.len_constraint, self.patterns = cons.len_constraint, cons.patterns
 
 
 def mistyped_values(site: Site) -> List[Tuple[Any, str]]:
@@ -370,17 +462,56 @@ def expected_constraints(m: Any, site: Site) -> Optional[ExpectedCons]:
     return ExpectedCons(h.lo, h.hi, h.patterns)
 
 
-def mutants(b: c11.Bundle, cls: Any, doc: Any, rng: random.Random, cap: int = 14, m: Any = None, ctx: Any = None) -> List[Mut]:
-    """Single-value mutants of ``doc`` (a document of exactly class ``cls``), at most ``cap`` of each family."""
+def model_type_shape(c: Any) -> str:
+    """Where the ``modelType`` of class ``c`` comes from: ``lonely`` (no parents, no descendants), else parents
+    (``p0`` none, ``pW`` at least one serialized with model type, ``pN`` parents but none with model type) and ``+desc``
+    for concrete descendants."""
+    if not c.inheritances and not c.concrete_descendants:
+        return "lonely"
+    par = "p0" if not c.inheritances else "pW" if any(i.serialization.with_model_type for i in c.inheritances) else "pN"
+    return "hier-" + par + ("+desc" if c.concrete_descendants else "")
+
+
+def sdk_rejects(b: c11.Bundle, cname: str, doc: Any) -> Tuple[Optional[bool], str]:
+    """Does ``<class>_from_jsonable`` of the generated Python SDK refuse ``doc``, and is the refusal about the model type?
+    (None, ...): no SDK / another exception.  ("model-type": the message names ``modelType`` / the model type; "other":
+    e.g. a property the dispatched class does not know.)"""
+    if b.sdk is None:
+        return None, "no-sdk"
+    try:
+        b.sdk.from_jsonable(cname)(doc)
+        return False, ""
+    except BaseException as e:  # noqa: B902
+        if isinstance(e, (KeyboardInterrupt, c11.TimeLimit)):
+            raise
+        if type(e).__name__ != "DeserializationException":
+            return None, type(e).__name__
+        msg = str(getattr(e, "cause", "")) + " " + str(e)
+        return True, ("model-type" if ("modelType" in msg or "model type" in msg) else "other")
+
+
+def mutants(b: c11.Bundle, cls: Any, doc: Any, rng: random.Random, cap: int = 14, m: Any = None, ctx: Any = None,
+            pool: Optional[Dict[str, List[Any]]] = None) -> List[Mut]:
+    """Single-value mutants of ``doc`` (a document of exactly class ``cls``): one per (kind, shape) class, then filled up
+    to ``cap`` of each family."""
     from aas_core_codegen import intermediate, naming
 
     cons_muts: List[Mut] = []
     struct: List[Mut] = []
     expected_muts: List[Mut] = []
     all_sites = list(sites(b, cls, doc))
+    if pool is None:
+        pool = value_pool(b, [(cls, doc)])
+
+    def split(kind: str) -> Tuple[str, str]:
+        k, _, tag = kind.partition("@")
+        return k, ("@" + tag if tag else "")
+
     for site in all_sites:
-        for value, kind, label in constraint_mutants(site, rng):
-            cons_muts.append(Mut(_set(doc, site.path, value), kind, label, site.shape))
+        item = (lambda _s=site: synth_item(b, _s, pool, rng)) if isinstance(site.ta, intermediate.ListTypeAnnotation) else None
+        for value, kind, label in constraint_mutants(site, rng, item=item):
+            kind, tag = split(kind)
+            cons_muts.append(Mut(_set(doc, site.path, value), kind, label, site.shape + tag))
         # the constraints as the oracle reads them from the meta-model text; only where they differ from the inferred ones
         exp = expected_constraints(m, site)
         if exp is not None:
@@ -390,26 +521,36 @@ def mutants(b: c11.Bundle, cls: Any, doc: Any, rng: random.Random, cap: int = 14
             else:
                 if ctx is not None:
                     ctx.hit("expected-constraints:DIFFER")
-                for value, kind, label in constraint_mutants(site, rng, cons=exp):
+                for value, kind, label in constraint_mutants(site, rng, cons=exp, item=item):
+                    kind, tag = split(kind)
                     expected_muts.append(Mut(_set(doc, site.path, value), kind, label + " [constraint read from the meta-model text, not inferred]",
-                                             "expected-" + site.shape))
+                                             "expected-" + site.shape + tag))
     # structure: every object of the document
     objs: List[Tuple[Tuple[Any, ...], Any, Any]] = [((), cls, doc)]
     for site in all_sites:
         if isinstance(site.ta, intermediate.OurTypeAnnotation) and isinstance(
                 site.ta.our_type, (intermediate.AbstractClass, intermediate.ConcreteClass)) and isinstance(site.value, dict):
             objs.append((site.path, _runtime_class(b, site.ta.our_type, site.value), site.value))
+    # model types of OTHER classes: the parents, a sibling / descendant, an unrelated class (the SDK decides)
+    concrete = [x for x in b.st.classes if isinstance(x, intermediate.ConcreteClass)]
     for path, c, obj in objs:
         where = "/".join(map(str, path)) or "<root>"
         nested = "nested" if path else "root"
+        mts = model_type_shape(c)
         if "modelType" in obj:
-            lonely = "lonely" if not c.inheritances and not c.concrete_descendants else "hier"
             struct.append(Mut(_set(doc, path + ("modelType",), "NoSuchModelType"), "modelType-wrong",
-                              f"modelType of {where} set to an unknown name", f"{nested}-{lonely}"))
+                              f"modelType of {where} set to an unknown name", f"{nested}-{mts}"))
             struct.append(Mut(_set(doc, path + ("modelType",), 12), "modelType-wrong",
-                              f"modelType of {where} set to a number", f"{nested}-{lonely}-number"))
+                              f"modelType of {where} set to a number", f"{nested}-{mts}-number"))
             struct.append(Mut(_set(doc, path + ("modelType",), None, delete=True), "modelType-missing",
-                              f"modelType of {where} removed", f"{nested}-{lonely}"))
+                              f"modelType of {where} removed", f"{nested}-{mts}"))
+            others: List[Tuple[str, Any]] = [("parent", x) for x in c.inheritances]
+            others += [("relative", x) for x in concrete if x is not c and (set(map(id, x.inheritances)) & set(map(id, c.inheritances)) or c in x.inheritances)][:2]
+            others += [("unrelated", x) for x in concrete if x is not c and not x.inheritances and not c.inheritances][:1]
+            for rel, x in others:
+                struct.append(Mut(_set(doc, path + ("modelType",), c11.model_type(x.name)), "modelType-other",
+                                  f"modelType of {where} set to the one of the {rel} class {x.name}", f"{nested}-{mts}-{rel}",
+                                  sdk_decides=True))
         for prop in c.properties:
             jname = str(naming.json_property(prop.name))
             if jname in obj and not isinstance(prop.type_annotation, intermediate.OptionalTypeAnnotation):
@@ -430,7 +571,8 @@ def mutants(b: c11.Bundle, cls: Any, doc: Any, rng: random.Random, cap: int = 14
         seen: Dict[Tuple[str, str], int] = {}
         first = [x for x in fam if seen.setdefault((x.kind, x.shape), id(x)) == id(x)]
         rest = [x for x in fam if seen[(x.kind, x.shape)] != id(x)]
-        out += (first + rest)[:cap]
+        # every (kind, shape) class keeps its representative (boundary classes @0 / @1, the model-type shapes)
+        out += first[:4 * cap] + rest[:max(0, cap - len(first))]
     return out
 
 
